@@ -1,5 +1,7 @@
 (* Proofs about the FFI ownership / allocation model (Model/Ffi.v); statements collected in Props/C14.v. *)
 From Coq Require Import ZArith.
+(* EidText first: its `validate` (of an EID) is shadowed by Model.Validate.validate (of a bundle) below *)
+From BP7 Require Import Model.EidText.
 From BP7 Require Import Base.Prelude Base.Decimal Base.Utf8 Gen.Consts.
 From BP7 Require Import Model.Types Model.Encode Model.Decode Model.Wf Model.Validate Model.Ops Model.DtnTime Model.Ffi.
 From BP7 Require Import Proofs.CodecProofs Proofs.TotalProofs.
@@ -306,9 +308,9 @@ Theorem queries_agree m s k b : fget s k = Some (BundleCell b) ->
   /\ fstep m s (Payload k) = (fpush s (BufferCell (payload b)), RHandle (fresh s), buffer_allocs (payload b))
   /\ fstep m s (ToCbor k) = (fpush (fset s k (BundleCell (snd (to_cbor b)))) (BufferCell (Some (fst (to_cbor b)))),
                             RHandle (fresh s), 2%Z)
-  /\ (has_nul (ffi_eid_print (p_src (b_primary b))) || has_nul (ffi_eid_print (p_dst (b_primary b))) = false ->
+  /\ (has_nul (eid_print (p_src (b_primary b))) || has_nul (eid_print (p_dst (b_primary b))) = false ->
       fstep m s (GetMetadata k) =
-        (fpush s (MetaCell (ffi_eid_print (p_src (b_primary b))) (ffi_eid_print (p_dst (b_primary b)))
+        (fpush s (MetaCell (eid_print (p_src (b_primary b))) (eid_print (p_dst (b_primary b)))
                            (p_time (b_primary b)) (p_seq (b_primary b)) (p_lifetime (b_primary b))),
          RHandle (fresh s), 3%Z)).
 Proof.
@@ -358,7 +360,7 @@ Definition abort_cause (m : ovf_mode) (s : fstate) (c : fcall) : Prop :=
   match c with
   | NewDefault src dst _ ph clock_ms => new_default_ok m s src dst ph clock_ms = false   (* caller error *)
   | GetMetadata h => exists b, fget s h = Some (BundleCell b) /\
-      has_nul (ffi_eid_print (p_src (b_primary b))) || has_nul (ffi_eid_print (p_dst (b_primary b))) = true
+      has_nul (eid_print (p_src (b_primary b))) || has_nul (eid_print (p_dst (b_primary b))) = true
   | _ => False
   end.
 Theorem aborts_only m s c s' d : fstep m s c = (s', RAbort, d) -> abort_cause m s c.
